@@ -36,6 +36,8 @@ pub enum Part {
     /// heap binaries reached only indirectly (inside a captured tuple / a captured closure / a
     /// closure returned as a result) cross a process boundary
     ClosureNested { a: u8, b: u8, form: u8 },
+    /// several processes await one still-running process (busy, or gated on a message from main)
+    SharedAwait { work: u16, awaiters: u8, gated: bool },
     /// a select that lists a timeout or an awaited helper BEFORE a filtered receive, with heap
     /// binaries in the mailbox (racy: invariants only), then drains the mailbox
     PrioFilter { sizes: Vec<u8>, helper_work: u16, timeout: u8, want: u8, await_first: bool },
@@ -64,7 +66,8 @@ pub fn part() -> impl Strategy<Value = Part> {
         3 => (1u8..4, prop::collection::vec(-5i8..50, 1..5)).prop_map(|(stages, inputs)| Part::Pipeline { stages, inputs }),
         2 => prop::collection::vec(-9i8..9, 1..4).prop_map(|inputs| Part::ReqReply { inputs }),
         2 => (1u8..5, work.clone()).prop_map(|(depth, base)| Part::AwaitChain { depth, base }),
-        2 => (work, any::<bool>()).prop_map(|(work, twice)| Part::LateAwait { work, twice }),
+        2 => (work.clone(), any::<bool>()).prop_map(|(work, twice)| Part::LateAwait { work, twice }),
+        3 => (work, 2u8..6, any::<bool>()).prop_map(|(work, awaiters, gated)| Part::SharedAwait { work, awaiters, gated }),
         3 => (prop_oneof![0u16..5, 0u16..300], prop::collection::vec(-5i8..50, 1..5)).prop_map(|(helper_work, inputs)| Part::BusyReceiver { helper_work, inputs }),
         2 => (prop::collection::vec(0u8..40, 1..4), any::<bool>()).prop_map(|(sizes, concat_in_main)| Part::BinFork { sizes, concat_in_main }),
         2 => prop::collection::vec(0u8..20, 1..4).prop_map(|chunks| Part::BinStream { chunks }),
@@ -81,7 +84,7 @@ pub fn heap_part() -> impl Strategy<Value = Part> {
         3 => (prop::collection::vec(0u8..8, 1..5), any::<u8>()).prop_map(|(sizes, pick)| Part::FilterBin { sizes, pick }),
         3 => (prop::collection::vec(0u8..6, 1..6), 0u8..6, 0u8..6).prop_map(|(sizes, l1, l2)| Part::TwoFilters { sizes, l1, l2 }),
         2 => (prop::collection::vec(0u8..8, 1..5), 0u8..3).prop_map(|(sizes, take)| Part::MailboxLeftover { sizes, take }),
-        3 => (0u8..12, 0u8..12, 0u8..4).prop_map(|(a, b, form)| Part::ClosureNested { a, b, form }),
+        3 => (0u8..12, 0u8..12, 0u8..16).prop_map(|(a, b, form)| Part::ClosureNested { a, b, form }),
         3 => (prop::collection::vec(0u8..6, 1..5), prop_oneof![0u16..10, 10u16..200], 0u8..30, 0u8..6, any::<bool>()).prop_map(|(sizes, helper_work, timeout, want, await_first)| Part::PrioFilter { sizes, helper_work, timeout, want, await_first }),
         1 => (prop_oneof![0u16..40, 40u16..400], any::<bool>()).prop_map(|(work, twice)| Part::LateAwait { work, twice }),
     ]
@@ -194,6 +197,26 @@ pub fn render(g: &GProg) -> Rendered {
                     processes += 1;
                 }
                 lines.push(format!("{} = !{}_{depth}", v("r"), v("ac")));
+                results.push(v("r"));
+            }
+            Part::SharedAwait { work, awaiters, gated } => {
+                if *gated {
+                    has_messages = true;
+                    lines.push(format!("{} = @{{ !#'int =x, {work} w =y, [x, y] __integer_add__ }}", v("sa")));
+                } else {
+                    lines.push(format!("{} = {work} @w", v("sa")));
+                }
+                processes += 1;
+                for i in 0..*awaiters {
+                    lines.push(format!("{}_{i} = @{{ !{} [~, {i}] __integer_add__ }}", v("sa"), v("sa")));
+                    processes += 1;
+                }
+                if *gated {
+                    lines.push(format!("{} {}", 7 + pi, v("sa")));
+                }
+                let mut fields: Vec<String> = (0..*awaiters).map(|i| format!("!{}_{i}", v("sa"))).collect();
+                fields.push(format!("!{}", v("sa")));
+                lines.push(format!("{} = [{}]", v("r"), fields.join(", ")));
                 results.push(v("r"));
             }
             Part::LateAwait { work, twice } => {
@@ -313,31 +336,40 @@ pub fn render(g: &GProg) -> Rendered {
             }
             Part::ClosureNested { a, b, form } => {
                 has_binaries = true;
+                // junk binaries allocated first, so that heap slot numbers on the sending side differ
+                // from the compact numbering used in transit
+                for j in 0..(form / 4) % 4 {
+                    lines.push(format!("{} = {} mkbin", v(&format!("nj{j}")), j + 1));
+                }
                 lines.push(format!("{} = {a} mkbin", v("na")));
                 lines.push(format!("{} = {b} mkbin", v("nb")));
                 lines.push(format!("{} = P[x: {}, y: [{}]]", v("nt"), v("na"), v("nb")));
                 match form % 4 {
                     0 => {
                         // a spawned closure captures a tuple that holds the binaries
-                        lines.push(format!("{} = @#{{ [{}.x, {}.y] }}", v("np"), v("nt"), v("nt")));
-                        lines.push(format!("{} = !{}", v("r"), v("np")));
+                        lines.push(format!("{} = @#{{ {} }}", v("np"), v("nt")));
+                        lines.push(format!("{} = !{}", v("nq"), v("np")));
+                        lines.push(format!("{} = [{}.x, {}.y]", v("r"), v("nq"), v("nq")));
                     }
                     1 => {
                         // a spawned closure captures a closure that captures the tuple
-                        lines.push(format!("{} = #{{ [{}.x, 7] }}", v("ng"), v("nt")));
+                        lines.push(format!("{} = #{{ {} }}", v("ng"), v("nt")));
                         lines.push(format!("{} = @#{{ {} }}", v("np"), v("ng")));
-                        lines.push(format!("{} = !{}", v("r"), v("np")));
+                        lines.push(format!("{} = !{}", v("nq"), v("np")));
+                        lines.push(format!("{} = [{}.x, 7]", v("r"), v("nq")));
                     }
                     2 => {
                         // the child's result is a closure over a tuple holding a binary; the parent calls it
-                        lines.push(format!("{} = {a} @#'int {{ =n, t2 = P[x: n mkbin], #{{ [t2.x, 8] }} }}", v("np")));
+                        lines.push(format!("{} = {a} @#'int {{ =n, j = 2 mkbin, t2 = P[x: n mkbin, y: [j]], #{{ t2 }} }}", v("np")));
                         lines.push(format!("{} = !{}", v("nh"), v("np")));
-                        lines.push(format!("{} = {}", v("r"), v("nh")));
+                        lines.push(format!("{} = {}", v("nq"), v("nh")));
+                        lines.push(format!("{} = [{}.x, 8]", v("r"), v("nq")));
                     }
                     _ => {
                         // the tuple itself is the spawn argument of a closure that also captures it
-                        lines.push(format!("{} = {} @#P[x: 'bin, y: ['bin]] {{ [$.x, {}.y] }}", v("np"), v("nt"), v("nt")));
-                        lines.push(format!("{} = !{}", v("r"), v("np")));
+                        lines.push(format!("{} = {} @#P[x: 'bin, y: ['bin]] {{ [$, {}] }}", v("np"), v("nt"), v("nt")));
+                        lines.push(format!("{} = !{}", v("nq"), v("np")));
+                        lines.push(format!("{} = [{}.0.x, {}.1.y]", v("r"), v("nq"), v("nq")));
                     }
                 }
                 processes += 1;
